@@ -27,7 +27,7 @@ def check(run, only=None):
         for i, (n, rounds) in enumerate(shapes):
             for env in ("twig", "core"):
                 cases.append({"id": "C18-%s-%d" % (env, i), "k": "conc", "n": n, "rounds": rounds, "env": env,
-                              "seed": run.seed * 31 + i, "dl": 120000})
+                              "seed": run.seed * 31 + i, "dl": 120000, "fresh": True})
     obs, hooks = common.run_pool(cases, deadline_ms=120000, workers=4, race=True)
     run.hooks = hooks
     events, owner = [], []
